@@ -138,7 +138,7 @@ PROPS["C01"] = {
     "level_note": RT_NOTE + "; QR block and alignment tables generated from an unrelated implementation found on this machine (npm qrcode-terminal, one known error corrected) and validated against the module-count formula; mask choice and segmentation are not judged",
     "parts": [
         {"name": "regression", "kind": "plain", "test": "TestReplayDir"},
-        {"name": "sweep", "kind": "plain", "test": "TestC01Sweep"},
+        {"name": "sweep", "kind": "plain", "test": "TestC01Sweep", "plain_shards": 2},
         {"name": "rapid", "kind": "rapid", "test": "TestC01Rapid", "checks": {"quick": 16000, "thorough": 1200000}},
     ],
     "universes": {"qr_layouts": QR_LAYOUTS, "qr_versions": [str(v) for v in range(1, 41)], "qr_masks": [str(m) for m in range(8)],
@@ -157,7 +157,7 @@ PROPS["C02"] = {
     "level_note": RT_NOTE + "; 144x144 block layout per ISO 16022 (stream codeword p belongs to block p mod 10)",
     "parts": [
         {"name": "regression", "kind": "plain", "test": "TestReplayDir"},
-        {"name": "sweep", "kind": "plain", "test": "TestC02Sweep"},
+        {"name": "sweep", "kind": "plain", "test": "TestC02Sweep", "plain_shards": 2},
         {"name": "rapid", "kind": "rapid", "test": "TestC02Rapid", "checks": {"quick": 30000, "thorough": 1500000}},
     ],
     "universes": {"dm_sizes": [str(n) for n in (10, 12, 14, 16, 18, 20, 22, 24, 26, 32, 36, 40, 44, 48, 52, 64, 72, 80, 88, 96, 104, 120, 132, 144)],
@@ -176,7 +176,7 @@ PROPS["C04"] = {
     "level_note": RT_NOTE + "; the 3x929 pattern table is a frozen copy of the pinned tree validated structurally (17 modules, 4+4 elements of width 1..6, cluster formula, distinctness) - no second source exists offline; shape choice and compaction choices are not judged",
     "parts": [
         {"name": "regression", "kind": "plain", "test": "TestReplayDir"},
-        {"name": "sweep", "kind": "plain", "test": "TestC04Sweep"},
+        {"name": "sweep", "kind": "plain", "test": "TestC04Sweep", "plain_shards": 2},
         {"name": "rapid", "kind": "rapid", "test": "TestC04Rapid", "checks": {"quick": 50000, "thorough": 2000000}},
     ],
     "universes": {"pdf_patterns": [f"{c}/{v}" for c in range(3) for v in range(929)], "pdf_rows": [str(r) for r in range(2, 31)],
@@ -202,7 +202,7 @@ PROPS["C03"] = {
     "parts": [
         {"name": "regression", "kind": "plain", "test": "TestReplayDir"},
         {"name": "known-findings", "kind": "plain", "test": "TestC03KnownFindings"},
-        {"name": "sweep", "kind": "plain", "test": "TestC03Sweep"},
+        {"name": "sweep", "kind": "plain", "test": "TestC03Sweep", "plain_shards": 2},
         {"name": "rapid", "kind": "rapid", "test": "TestC03Rapid", "checks": {"quick": 30000, "thorough": 1200000}},
     ],
     "universes": {"aztec_sizes": AZTEC_SIZES, "aztec_word_sizes": ["6", "8", "10", "12"]},
@@ -329,6 +329,7 @@ PROPS["C16"] = {
         {"name": "regression", "kind": "plain", "test": "TestReplayDir"},
         {"name": "leak-sweep", "kind": "plain", "test": "TestC16LeakSweep", "plain_shards": 16},
         {"name": "cold-start", "kind": "plain", "test": "TestC16ColdStart"},
+        {"name": "bursts", "kind": "plain", "test": "TestC16Bursts"},
         {"name": "rapid", "kind": "rapid", "test": "TestC16Rapid", "checks": {"quick": 320, "thorough": 16000}, "shrinktime": "60s"},
     ],
     "universes": {"families": list(FAMS)},
